@@ -38,7 +38,7 @@ GMutT   == P1(KeyTypes, KeyTypes, {"ssh-rsa", "rsa-sha2-256", "ssh-ed25519", ""}
 MenusGenT == {GCrossT, GMutT, MFlags, MSignersRSA, MSignersOther, MOptOut}
 
 Emit == Done => PrintT("TRACE " \o ToJson(
-   CASE part = 1 -> [part |-> 1, v |-> v, acc |-> res.acc, why |-> res.why, valid |-> Valid(v)]
+   CASE part = 1 -> [part |-> 1, v |-> v, acc |-> res.acc, why |-> res.why, valid |-> Valid(v), unjudged |-> Unjudged(v)]
      [] part = 2 -> [part |-> 2, m |-> m, new |-> mres.new, ok |-> mres.ok, fmt |-> mres.fmt, algs |-> mres.algs]
      [] OTHER    -> [part |-> 3, o |-> o, login |-> ores]))
 =============================================================================
